@@ -214,8 +214,8 @@ struct Lattice_Term g_ft; struct Lattice_Term nondet_Term(void);
 //@free Hopping(label_t,label_t,double,ushort,ushort,ushort,ushort) => PresetsC_Hopping7
 //@free NupNdown(label_t,label_t,double,ushort,ushort,ushort,ushort) => PresetsC_NupNdown7
 //@free NupNdown(label_t,double,ushort,ushort,ushort,ushort) => PresetsC_NupNdown6
-enum { PM_COULOMBS = 1, PM_LEVEL, PM_MAGNET, PM_SZSZ, PM_SS, PM_HOPPING };
-struct PC { int mode; label_t l1, l2; double a1, a2; int gkind; unsigned short ga, gz1, gz2; unsigned long exp; long n; } g_pc;   /* constant during a call */
+enum { PM_COULOMBS = 1, PM_LEVEL, PM_MAGNET, PM_SZSZ, PM_SS, PM_HOPPING, PM_HOPPING8 };
+struct PC { int mode; label_t l1, l2; double a1, a2; int gkind; unsigned short ga, gz1, gz2; unsigned long exp; long n; unsigned short gb; } g_pc;   /* constant during a call */
 struct PMS { unsigned long calls, hits; } g_pm;                                                                                 /* monitor state */
 #define KNOWN_(l) (0 <= SITEPOS(l) && SITEPOS(l) < g_pc.n)
 #define ORB_(l) SM_orb(SITEPOS(l))
@@ -249,6 +249,8 @@ static _Bool pm_sound(const struct Lattice_Term *t)
            (g_pc.mode == PM_SS && (IS_SPSM(t, h, i, j, a) || IS_SMSP(t, h, i, j, a)));
   case PM_HOPPING:    /* SUM_{s a} t c^+_{ias} c_{jas} and its Hermitian conjugate (real t) */
     return IS_HOPPING(t, g_pc.a1, i, j, a, a, s, s) || IS_HOPPING(t, g_pc.a1, j, i, a, a, s, s);
+  case PM_HOPPING8:   /* t c^+_{i a s} c_{j b s'} and its Hermitian conjugate t c^+_{j b s'} c_{i a s} (real t) */
+    return IS_HOPPING(t, g_pc.a1, i, j, g_pc.ga, g_pc.gb, g_pc.gz1, g_pc.gz2) || IS_HOPPING(t, g_pc.a1, j, i, g_pc.gb, g_pc.ga, g_pc.gz2, g_pc.gz1);
   }
   return 0;
 }
@@ -269,6 +271,7 @@ static _Bool pm_ghost(const struct Lattice_Term *t)
     if (k == 4) return IS_SPSM(t, h, i, j, a);
     return IS_SMSP(t, h, i, j, a);
   case PM_HOPPING:  return k == 0 ? IS_HOPPING(t, g_pc.a1, i, j, a, a, g_pc.gz1, g_pc.gz1) : IS_HOPPING(t, g_pc.a1, j, i, a, a, g_pc.gz1, g_pc.gz1);
+  case PM_HOPPING8: return k == 0 ? IS_HOPPING(t, g_pc.a1, i, j, g_pc.ga, g_pc.gb, g_pc.gz1, g_pc.gz2) : IS_HOPPING(t, g_pc.a1, j, i, g_pc.gb, g_pc.ga, g_pc.gz2, g_pc.gz1);
   }
   return 0;
 }
@@ -320,7 +323,7 @@ __CPROVER_assigns(z, g_pm, g_ft)
 __CPROVER_loop_invariant(z <= Spins && !VERIF_thrown && (i == g_pc.ga ? GH(z <= g_pc.gz1) : g_pm.hits == __CPROVER_loop_entry(g_pm.hits)))
 __CPROVER_decreases(Spins - z)
 //@end
-//@harness h_addLevel enforce=LatticePresets_addLevel props=C04,C20 min_obl=4106 reach=3 objbits=8 timeout=120
+//@harness h_addLevel enforce=LatticePresets_addLevel props=C04,C20 min_obl=4463 reach=3 objbits=8 timeout=120
 void h_addLevel(void) { struct Lattice *L; label_t l; double e; LatticePresets_addLevel(L, l, e); if (VERIF_thrown) REACH("thrown"); REACH("exit"); }
 
 /* ---- addCoulombS */
@@ -348,7 +351,7 @@ __CPROVER_assigns(z2, g_pm, g_ft)
 __CPROVER_loop_invariant(z2 <= z1 && !VERIF_thrown && ((i == g_pc.ga && z1 == g_pc.gz1 && g_pc.gkind == 1) ? GH(z2 <= g_pc.gz2) : g_pm.hits == __CPROVER_loop_entry(g_pm.hits)))
 __CPROVER_decreases(z1 - z2)
 //@end
-//@harness h_addCoulombS enforce=LatticePresets_addCoulombS props=C04,C20 min_obl=4281 reach=3 objbits=8 timeout=400
+//@harness h_addCoulombS enforce=LatticePresets_addCoulombS props=C04,C20 min_obl=4638 reach=3 objbits=8 timeout=400
 void h_addCoulombS(void) { struct Lattice *L; label_t l; double u, e; LatticePresets_addCoulombS(L, l, u, e); if (VERIF_thrown) REACH("thrown"); REACH("exit"); }
 
 /* ---- addMagnetization: the documentation says mH 1/2 (n_up - n_down); KNOWN FINDING D14: the code stores +-mH */
@@ -415,7 +418,19 @@ void h_addSS(void) { struct Lattice *L; label_t l1, l2; double j; LatticePresets
 /* ---- addHopping(L, i, j, t, a, a', s, s'): the checked single hopping term and its Hermitian conjugate (inlined below) */
 //@free addHopping => LatticePresets_addHopping8
 //@function Pomerol::LatticePresets::addHopping(Pomerol::Lattice*, std::__cxx11::basic_string<char, std::char_traits<char>, std::allocator<char> > const&, std::__cxx11::basic_string<char, std::char_traits<char>, std::allocator<char> > const&, double, unsigned short, unsigned short, unsigned short, unsigned short) as LatticePresets_addHopping8
+//@contract
+ADD_PRE(g_pc.mode)
+__CPROVER_requires(g_pc.mode == PM_HOPPING8 ==> (g_pc.l1 == Label1 && g_pc.l2 == Label2 && D_SAME(g_pc.a1, t) && g_pc.ga == Orbital1 && g_pc.gb == Orbital2 && g_pc.gz1 == Spin1 && g_pc.gz2 == Spin2 &&
+   (g_pc.gkind == 0 || g_pc.gkind == 1) && g_pc.exp == ((Label1 == Label2 && Orbital1 == Orbital2 && Spin1 == Spin2) ? 2UL : 1UL)))
+__CPROVER_assigns(VERIF_thrown, g_pm, g_ft)
+/* documented argument check: unknown label, or an orbital / spin outside the respective site's range */
+__CPROVER_ensures(g_pc.mode == PM_HOPPING8 ==> (VERIF_thrown == (!K1 || !K2 || Orbital1 >= O1 || Orbital2 >= SM_orb(SITEPOS(Label2)) || Spin1 >= Z1 || Spin2 >= SM_spin(SITEPOS(Label2)))))
+__CPROVER_ensures(g_pc.mode == PM_HOPPING8 ==> (VERIF_thrown ==> g_pm.calls == 0))
+/* the hopping term and its Hermitian conjugate: exactly two terms, each documented one exactly once (soundness of both: monitor) */
+__CPROVER_ensures((g_pc.mode == PM_HOPPING8 && !VERIF_thrown) ==> (g_pm.calls == 2 && g_pm.hits == g_pc.exp))
 //@end
+//@harness h_addHopping8 enforce=LatticePresets_addHopping8 props=C04,C20 min_obl=4372 reach=3 objbits=8 timeout=300
+void h_addHopping8(void) { struct Lattice *L; label_t l1, l2; double t; unsigned short a, b, s1, s2; g_pc.mode = PM_HOPPING8; LatticePresets_addHopping8(L, l1, l2, t, a, b, s1, s2); if (VERIF_thrown) REACH("thrown"); REACH("exit"); }
 /* ---- addHopping(L, i, j, t): SUM_{s a} t c^+_{ias} c_{jas} + h.c. */
 //@function Pomerol::LatticePresets::addHopping(Pomerol::Lattice*, std::__cxx11::basic_string<char, std::char_traits<char>, std::allocator<char> > const&, std::__cxx11::basic_string<char, std::char_traits<char>, std::allocator<char> > const&, double) as LatticePresets_addHopping4
 //@contract
